@@ -80,11 +80,14 @@ Ltac names_cases n m H :=
 Ltac cb := cbn -[Z.eqb zlist_eqb mutate apply_event Z.leb].
 
 Ltac split_ifs :=
+  rewrite ?Z.eqb_refl, ?zlist_eqb_refl; cb;
   repeat (match goal with
           | |- context [?a =? ?b] =>
-              let E := fresh "E" in destruct (a =? b) eqn:E; [apply Z.eqb_eq in E; subst|]
+              tryif constr_eq a b then fail else
+              (let E := fresh "E" in destruct (a =? b) eqn:E; [apply Z.eqb_eq in E; subst|])
           | |- context [zlist_eqb ?a ?b] =>
-              let E := fresh "E" in destruct (zlist_eqb a b) eqn:E; [apply zlist_eqb_eq in E; subst|]
+              tryif constr_eq a b then fail else
+              (let E := fresh "E" in destruct (zlist_eqb a b) eqn:E; [apply zlist_eqb_eq in E; subst|])
           end; rewrite ?Z.eqb_refl, ?zlist_eqb_refl; cb).
 
 Ltac typed_ok := do 4 eexists; reflexivity.
